@@ -26,6 +26,9 @@ type lockAnalysis struct {
 	at     map[ssa.Instruction]int
 	why    map[*ssa.Function]string // witness of the minimal caller
 	assume map[string]int          // funcName -> assumed entry state (documented exceptions)
+	// ignoreCallers: call sites inside these functions do not count when computing a callee's
+	// entry state (constructors working on an unshared object, callers protected by another lock).
+	ignoreCallers map[string]string
 }
 
 func lockOp(in ssa.Instruction, mu *types.Var) (op string, ok bool) {
@@ -62,7 +65,11 @@ func lockOp(in ssa.Instruction, mu *types.Var) (op string, ok bool) {
 }
 
 func newLockAnalysis(p *Program, mu *types.Var, pkgPrefixes []string, assume map[string]int) *lockAnalysis {
-	la := &lockAnalysis{p: p, mu: mu, funcs: map[*ssa.Function]bool{}, entry: map[*ssa.Function]int{}, fixed: map[*ssa.Function]bool{},
+	return newLockAnalysisX(p, mu, pkgPrefixes, assume, nil)
+}
+
+func newLockAnalysisX(p *Program, mu *types.Var, pkgPrefixes []string, assume map[string]int, ignoreCallers map[string]string) *lockAnalysis {
+	la := &lockAnalysis{p: p, mu: mu, ignoreCallers: ignoreCallers, funcs: map[*ssa.Function]bool{}, entry: map[*ssa.Function]int{}, fixed: map[*ssa.Function]bool{},
 		at: map[ssa.Instruction]int{}, why: map[*ssa.Function]string{}, assume: assume}
 	for fn := range allFuncs(p) {
 		if fn.Blocks == nil || fn.Pkg == nil {
@@ -191,6 +198,9 @@ func (la *lockAnalysis) solve() {
 				if !la.funcs[callee] || la.fixed[callee] {
 					return
 				}
+				if _, skip := la.ignoreCallers[funcName(fn)]; skip {
+					return
+				}
 				if c, ok := cand[callee]; !ok || st < c {
 					cand[callee] = st
 					candWhy[callee] = fmt.Sprintf("called from %s at %s with state %d", funcName(fn), la.p.pos(at.Pos()), st)
@@ -306,6 +316,12 @@ func (la *lockAnalysis) flow(fn *ssa.Function, onCall func(callee *ssa.Function,
 // ruleGuarded checks that every access of the field happens with the mutex held
 // (reads: R or W, writes: W).
 func ruleGuarded(p *Program, r *Report, la *lockAnalysis, muName, fieldSpec string, exceptFns map[string]string) {
+	ruleGuardedX(p, r, la, muName, fieldSpec, exceptFns, false)
+}
+
+// ruleGuardedX with writesOnly: only writes must hold the mutex (write-once fields that are
+// published through another synchronisation point and then only read).
+func ruleGuardedX(p *Program, r *Report, la *lockAnalysis, muName, fieldSpec string, exceptFns map[string]string, writesOnly bool) {
 	fv := p.fieldOf(fieldSpec)
 	if fv == nil {
 		r.fail("anchor", fieldSpec, "", "field cannot be resolved")
@@ -337,6 +353,8 @@ func ruleGuarded(p *Program, r *Report, la *lockAnalysis, muName, fieldSpec stri
 		mode, need := "read", 1
 		if k.write {
 			mode, need = "write", 2
+		} else if writesOnly {
+			continue
 		}
 		cons := fmt.Sprintf("%s %s in %s under %s", mode, sf, k.fn, muName)
 		if why, ok := exceptFns[k.fn]; ok {
@@ -493,5 +511,111 @@ func ruleAtomicOnly(p *Program, r *Report, fieldSpec string, exceptFns map[strin
 	for _, f := range fns {
 		a := bad[f]
 		r.fail("atomic-only", sf+" in "+f, p.pos(a.pos), "plain "+a.how+" of a field that is otherwise accessed atomically")
+	}
+}
+
+// ruleEntryLocked: the function is only ever entered with the mutex held in (at least) the given mode.
+func ruleEntryLocked(p *Program, r *Report, la *lockAnalysis, muName, fname string, need int) {
+	fn := p.Func(fname)
+	if fn == nil {
+		r.fail("anchor", fname, "", "function cannot be resolved")
+		return
+	}
+	cons := fmt.Sprintf("entry(%s) holds %s mode>=%d", short(fname), muName, need)
+	st, ok := la.entry[fn]
+	if !ok {
+		r.fail("entry-locked", cons, p.pos(fn.Pos()), "function is outside the analysed packages")
+		return
+	}
+	if st >= need {
+		r.pass("entry-locked", cons, p.pos(fn.Pos()), la.why[fn])
+	} else {
+		r.fail("entry-locked", cons, p.pos(fn.Pos()), fmt.Sprintf("entered with lock state %d: %s", st, la.why[fn]))
+	}
+}
+
+// ruleGoOnlyIn: `go f(...)` for the given target occurs only inside the allowed functions.
+func ruleGoOnlyIn(p *Program, r *Report, target string, allowed map[string]string) {
+	t := p.Func(target)
+	if t == nil {
+		r.fail("anchor", target, "", "function cannot be resolved")
+		return
+	}
+	n := 0
+	for fn := range allFuncs(p.progFor(t.Pkg.Pkg.Path())) {
+		if fn.Blocks == nil {
+			continue
+		}
+		for _, b := range fn.Blocks {
+			for _, in := range b.Instrs {
+				g, ok := in.(*ssa.Go)
+				if !ok || g.Common().StaticCallee() != t {
+					continue
+				}
+				n++
+				cons := "go " + short(target) + " in " + funcName(fn)
+				if why, ok := allowed[funcName(fn)]; ok {
+					r.pass("go-site", cons, p.pos(g.Pos()), why)
+				} else {
+					r.fail("go-site", cons, p.pos(g.Pos()), "goroutine started outside the permitted function")
+				}
+			}
+		}
+	}
+	if n == 0 {
+		r.fail("go-site", "go "+short(target), "", "no go statement found (anchor lost)")
+	}
+}
+
+// ruleCloseSites: close(<struct>.<field>) occurs exactly in the allowed functions.
+func ruleCloseSites(p *Program, r *Report, fieldSpec string, allowed map[string]string) {
+	fv := p.fieldOf(fieldSpec)
+	if fv == nil {
+		r.fail("anchor", fieldSpec, "", "field cannot be resolved")
+		return
+	}
+	sf := short(fieldSpec)
+	seen := map[string]int{}
+	for fn := range allFuncs(p.progFor(fv.Pkg().Path())) {
+		if fn.Blocks == nil {
+			continue
+		}
+		for _, b := range fn.Blocks {
+			for _, in := range b.Instrs {
+				var cc *ssa.CallCommon
+				switch x := in.(type) {
+				case *ssa.Call:
+					cc = x.Common()
+				case *ssa.Defer:
+					cc = x.Common()
+				default:
+					continue
+				}
+				bi, ok := cc.Value.(*ssa.Builtin)
+				if !ok || bi.Name() != "close" {
+					continue
+				}
+				ld, ok := cc.Args[0].(*ssa.UnOp)
+				if !ok {
+					continue
+				}
+				fa, ok := ld.X.(*ssa.FieldAddr)
+				if !ok || fieldVarOf(fa) != fv {
+					continue
+				}
+				seen[funcName(fn)]++
+				cons := "close(" + sf + ") in " + funcName(fn)
+				if why, ok := allowed[funcName(fn)]; ok {
+					r.pass("close-site", cons, p.pos(in.Pos()), why)
+				} else {
+					r.fail("close-site", cons, p.pos(in.Pos()), "channel closed outside its single owner")
+				}
+			}
+		}
+	}
+	for f := range allowed {
+		if seen[f] == 0 {
+			r.fail("close-site", "close("+sf+") in "+f, "", "the owner no longer closes the channel")
+		}
 	}
 }
